@@ -3,6 +3,7 @@ package main
 
 import (
 	"bytes"
+	"sort"
 	"strings"
 
 	"github.com/miekg/dns"
@@ -441,7 +442,70 @@ func run(r *Rng, tier string, n int) {
 			Viol("C03/unpack/pointer-hop-limit", "pointer chain of "+Itoa(hops)+" hops: "+got, in03{Wire: Hx(msg)})
 		}
 	}
-	st := map[string]int{"label_lists_checked": nNames, "strings_checked": nStrings, "wire_inputs_checked": nWire}
+	// (6) the 255-octet limit reached through a compression pointer: a suffix packed first,
+	// then prefix labels + that suffix with compress=true, expanded length 250..260
+	nptr := 0
+	for _, sufLen := range []int{2, 5, 64, 129, 200, 254} {
+		suffixLabels := labelsWithShape(r, shapeForTotal(r, sufLen, 0), []byte("suf"))
+		if suffixLabels == nil {
+			continue
+		}
+		suffix := refShowName(suffixLabels)
+		for total := 250; total <= 260; total++ {
+			preWire := total - sufLen // octets of the prefix labels incl. their length octets
+			if preWire < 2 {
+				continue
+			}
+			var pre [][]byte
+			rem := preWire
+			for rem > 0 {
+				l := 63
+				if rem-1 < l {
+					l = rem - 1
+				}
+				if l == 0 {
+					pre[len(pre)-1] = pre[len(pre)-1][1:]
+					rem++
+					continue
+				}
+				pre = append(pre, bytes.Repeat([]byte{'p'}, l))
+				rem -= l + 1
+			}
+			name := ""
+			for _, l := range pre {
+				name += refShowLabel(l) + "."
+			}
+			name += suffix
+			buf := make([]byte, 1200)
+			comp := map[string]uint16{}
+			off, err := dns.VerifPackDomainName(suffix, buf, 0, comp, true)
+			if err != nil {
+				continue
+			}
+			off2, err2 := dns.VerifPackDomainName(name, buf, off, comp, true)
+			nptr++
+			out := "err"
+			if err2 == nil {
+				var es []string
+				for k, v := range comp {
+					es = append(es, Hs(k)+"="+Itoa(int(v)))
+				}
+				sort.Strings(es)
+				out = "ok:" + Hx(buf[:off2]) + "#" + strings.Join(es, ";")
+			}
+			Emit("pack_names", []string{"0", "1200", Hs(suffix) + ":1," + Hs(name) + ":1"}, out)
+			in := in03{Name: Hs(name)}
+			if (err2 == nil) != (total <= 255) {
+				Viol("C03/limit-255/through-pointer", "packing a name of "+Itoa(total)+" expanded octets through a compression pointer: err="+Btoa(err2 != nil), in)
+			}
+			if err2 == nil {
+				if _, _, e := dns.UnpackDomainName(buf[:off2], off); e != nil {
+					Viol("C03/emits-rejected-name", "UnpackDomainName rejects a compressed name the packer produced", in)
+				}
+			}
+		}
+	}
+	st := map[string]int{"pointer_limit_checked": nptr, "label_lists_checked": nNames, "strings_checked": nStrings, "wire_inputs_checked": nWire}
 	for k, v := range hist {
 		st["class:"+k] = v
 	}
